@@ -12,7 +12,9 @@ import os
 import resource
 import signal
 import sys
+import logging
 import time
+import tracemalloc
 
 sys.path.insert(0, os.path.dirname(os.path.dirname(os.path.dirname(os.path.abspath(__file__)))))
 from vlib import impl  # noqa: E402
@@ -35,15 +37,44 @@ def on_alarm(signum, frame):
 
 def dump(folder, secret):
     d = impl.tree_dump(folder)
-    h = hashlib.sha256()
+    h, hnc = hashlib.sha256(), hashlib.sha256()
     leak = False
     for rel, kind, data in d:
+        nc = ".Radicale.cache" not in rel.split(os.sep)
         h.update(repr((rel, kind)).encode())
+        if nc:
+            hnc.update(repr((rel, kind)).encode())
         if data is not None:
             h.update(hashlib.sha256(data).digest())
+            if nc:
+                hnc.update(hashlib.sha256(data).digest())
             if secret and secret in data:
                 leak = True
-    return h.hexdigest(), leak, [rel for rel, _, _ in d]
+    return h.hexdigest(), leak, [rel for rel, _, _ in d], hnc.hexdigest()
+
+
+class Counting(logging.Handler):
+    """log volume per request: what a stream handler would have written"""
+
+    def __init__(self):
+        super().__init__()
+        self.bytes = 0
+        self.largest = 0
+        self.secret = b""
+        self.leak = False
+
+    def emit(self, record):
+        try:
+            m = record.getMessage()
+            if record.exc_info:
+                m += "\n" + logging.Formatter().formatException(record.exc_info)
+        except Exception as e:  # never let the measurement break the request
+            m = repr(e)
+        n = len(m.encode("utf-8", "replace"))
+        self.bytes += n
+        self.largest = max(self.largest, n)
+        if self.secret and self.secret in m.encode("utf-8", "replace"):
+            self.leak = True
 
 
 def main():
@@ -53,7 +84,23 @@ def main():
         resource.setrlimit(resource.RLIMIT_AS, (lim["as_bytes"], lim["as_bytes"]))
     signal.signal(signal.SIGALRM, on_alarm)
     secret = spec.get("secret", "").encode()
-    srv = impl.Server(conf=spec.get("conf"), folder=spec["folder"])
+    conf = spec.get("conf") or {}
+    counting = None
+    if spec.get("mode") == "debug":
+        # the configuration dimension: everything the [logging] section can switch on
+        conf = dict(conf)
+        conf["logging"] = {"level": "debug", "request_content_on_debug": "True", "response_content_on_debug": "True",
+                           "bad_put_request_content": "True", "request_header_on_debug": "True", "backtrace_on_debug": "True"}
+    srv = impl.Server(conf=conf, folder=spec["folder"])
+    if spec.get("measure"):
+        counting = Counting()
+        counting.secret = secret
+        import radicale.log
+        radicale.log.logger.addHandler(counting)
+        radicale.log.logger.propagate = False
+        if spec.get("mode") == "debug":
+            radicale.log.logger.setLevel(logging.DEBUG)
+        tracemalloc.start()
     res = []
     mark("setup-done")
     last_paths = None
@@ -66,6 +113,14 @@ def main():
             hdrs["HTTP_X_REMOTE_USER"] = r["user"]
         hdrs.update(r.get("headers") or {})
         out = dict(mark=r["mark"])
+        if spec.get("fresh"):
+            # reference run of the history rule: a new Application instance (same storage folder) for every request
+            srv = impl.Server(conf=conf, folder=spec["folder"])
+        if counting is not None:
+            counting.bytes = counting.largest = 0
+            counting.leak = False
+            tracemalloc.reset_peak()
+            cur0 = tracemalloc.get_traced_memory()[0]
         rss0 = resource.getrusage(resource.RUSAGE_SELF).ru_maxrss
         mark("q" + r["mark"])
         t0 = time.monotonic()
@@ -82,11 +137,17 @@ def main():
         finally:
             signal.alarm(0)
         out["dt"] = time.monotonic() - t0
+        if counting is not None:
+            out["alloc_peak"] = max(0, tracemalloc.get_traced_memory()[1] - cur0)
+            out["log_bytes"] = counting.bytes
+            out["log_largest"] = counting.largest
+            out["log_leak"] = counting.leak
         mark("a" + r["mark"])
         out["rss0"] = rss0
         out["rss1"] = resource.getrusage(resource.RUSAGE_SELF).ru_maxrss
-        hx, leak, paths = dump(spec["folder"], secret)
+        hx, leak, paths, hnc = dump(spec["folder"], secret)
         out["dump"] = hx
+        out["dump_nc"] = hnc
         out["store_leak"] = leak
         if last_paths is not None and paths != last_paths:
             out["paths_added"] = sorted(set(paths) - set(last_paths))[:10]
